@@ -18,7 +18,8 @@ var (
 	GoodTS  = []int64{0, 1000, 2000, 3000, 4000, MaxTS}
 	BadTS   = []int64{1, 1500, -1000, -2, MaxTS + 1, math.MaxInt64}
 	Clocks  = []int64{0, 999, 1000, 1001, 2500, 5000, 7000000, MaxTS, MaxTS + 500, -1, -1500}
-	Parents = []string{"p", "q"}
+	// "p-2" extends "p": a listing of p's tables must not pick up p-2's
+	Parents = []string{"p", "q", "p-2"}
 	IDs     = []string{"t", "u"}
 )
 
@@ -337,6 +338,18 @@ func (g *Gen) FilterTree(depth int) *Filter {
 		}
 		return f
 	default:
+		if g.R.Chance(1, 7) {
+			// a lopsided condition: one branch absent, the other one invalid — the whole tree must be
+			// refused whichever branch the data would select
+			bad := core.Pick(g.R, []*Filter{{Kind: "pass", Flag: false}, {Kind: "block", Flag: false}, {Kind: "sample", PMilli: 0}, {Kind: "sample", PMilli: 1500}})
+			f := &Filter{Kind: "cond", P: g.FilterTree(depth - 1)}
+			if g.R.Chance(1, 2) {
+				f.T = bad
+			} else {
+				f.F = bad
+			}
+			return f
+		}
 		f := &Filter{Kind: "cond", P: g.FilterTree(depth - 1)}
 		if !g.R.Chance(1, 5) {
 			f.T = g.FilterTree(depth - 1)
